@@ -6,6 +6,8 @@
 package seccomp
 
 //@ func getSyscall(syscalls []SyscallWithConditions, syscall uint32) *SyscallWithConditions   properties C03 C07
+//@   deterministic C13
+//@   frame_props C13
 //@   returns_elem syscalls
 //@   ensures @found result != nil ==> (syscalls[idx(result)].Num == syscall && forall(j, 0, idx(result), syscalls[j].Num != syscall))
 //@   ensures @absent result == nil ==> forall(j, 0, len(syscalls), syscalls[j].Num != syscall)
@@ -31,10 +33,14 @@ package seccomp
 //@ macro ok(p) = progOK(p.instructions, p.R)
 
 //@ func NewProgram() Program   properties C01 C03 C05 C06
+//@   deterministic C13
+//@   frame_props C13
 //@   ensures @empty len(result.instructions) == 0 && len(result.jumps) == 0 && result.nextLabel == 1
 //@   ensures @labels nonnil(result.labels) && card(result.labels) == 0
 
 //@ func (p *Program) NewLabel() Label   properties C01 C02 C03 C06
+//@   deterministic C13
+//@   frame_props C13
 //@   requires p != nil
 //@   modifies p
 //@   ensures @next result == old(p.nextLabel) + 1 && p.nextLabel == result
@@ -47,6 +53,8 @@ package seccomp
 //@   ensures result == len(p.instructions)
 
 //@ func (p *Program) JmpIf(cond bpf.JumpTest, val uint32, trueLabel Label, falseLabel Label)   properties C01 C02 C03 C05 C06
+//@   deterministic C13
+//@   frame_props C13
 //@   requires p != nil
 //@   modifies p
 //@   ghost p.G = stepJif(p.G, unbox(p.instructions[len(p.instructions)-1], bpf.JumpIf).Cond, unbox(p.instructions[len(p.instructions)-1], bpf.JumpIf).Val, p.jumps[len(p.jumps)-1].trueLabel, p.jumps[len(p.jumps)-1].falseLabel) at exit
@@ -57,6 +65,8 @@ package seccomp
 //@   ensures @ok {C05} p.R == old(p.R) && (ok(old(p)) && 0 <= cond && cond <= 7 ==> ok(p))
 
 //@ func (p *Program) SetLabel(label Label)   properties C01 C02 C03 C06
+//@   deterministic C13
+//@   frame_props C13
 //@   requires p != nil && nonnil(p.labels)
 //@   modifies p
 //@   ghost p.G = stepMark(p.G, label) at exit
@@ -66,6 +76,8 @@ package seccomp
 //@   ensures @ok {C05} p.R == old(p.R)
 
 //@ func (p *Program) JmpIfTrue(cond bpf.JumpTest, val uint32, trueLabel Label)   properties C01 C02 C03 C05 C06
+//@   deterministic C13
+//@   frame_props C13
 //@   requires p != nil && nonnil(p.labels)
 //@   modifies p
 //@   ensures @sem p.G == stepMark(stepJif(old(p.G), cond, val, trueLabel, old(p.nextLabel) + 1), old(p.nextLabel) + 1)
@@ -75,6 +87,8 @@ package seccomp
 //@   ensures @ok {C05} p.R == old(p.R) && (ok(old(p)) && 0 <= cond && cond <= 7 ==> ok(p))
 
 //@ func (p *Program) Ret(action Action)   properties C01 C05 C06
+//@   deterministic C13
+//@   frame_props C13
 //@   requires p != nil
 //@   modifies p
 //@   ghost p.G = stepRet(p.G, unbox(p.instructions[len(p.instructions)-1], bpf.RetConstant).Val) at exit
@@ -86,6 +100,8 @@ package seccomp
 //@   ensures @ok {C05} p.R == addRet(old(p.R), enc(action)) && (ok(old(p)) ==> ok(p))
 
 //@ func (p *Program) LdHi(arg uint32)   properties C02 C05
+//@   deterministic C13
+//@   frame_props C13
 //@   requires p != nil
 //@   requires @arg_le_5 arg <= 5
 //@   modifies p
@@ -97,6 +113,8 @@ package seccomp
 //@   ensures @ok {C05} p.R == old(p.R) && (ok(old(p)) ==> ok(p))
 
 //@ func (p *Program) ldSyscallNum()   properties C03 C05
+//@   deterministic C13
+//@   frame_props C13
 //@   requires p != nil
 //@   modifies p
 //@   ghost p.G = stepLd(p.G, unbox(p.instructions[len(p.instructions)-1], bpf.LoadAbsolute).Off) at exit
@@ -107,6 +125,8 @@ package seccomp
 //@   ensures @ok {C05} p.R == old(p.R) && (ok(old(p)) ==> ok(p))
 
 //@ func (p *Program) LdLo(arg uint32)   properties C02 C05
+//@   deterministic C13
+//@   frame_props C13
 //@   requires p != nil
 //@   requires @arg_le_5 arg <= 5
 //@   modifies p
@@ -156,6 +176,8 @@ package seccomp
 //@   ensures c.Argument <= 5
 
 //@ func (s SyscallWithConditions) Assemble(p *Program, action Label)   properties C02 C03 C05 C07
+//@   deterministic C13
+//@   frame_props C13
 //@   requires p != nil && nonnil(p.labels)
 //@   requires 1 <= action && action <= p.nextLabel
 //@   requires fresh(p)
@@ -206,6 +228,8 @@ package seccomp
 // ---- names -> numbers, validation (C01 C03 C07) ----
 
 //@ func (o Operation) isValid() bool   properties C07
+//@   deterministic C13
+//@   frame_props C13
 //@   ensures @known result == knownOp(o)
 //@   loop 1 binder k
 //@     invariant @none forall(j, 0, k, Operations[j] != o)
@@ -226,6 +250,8 @@ package seccomp
 
 // Validate (after the fix: argument index and operation are both checked)
 //@ func (a ArgumentConditions) Validate() []string   properties C05 C07
+//@   deterministic C13
+//@   frame_props C13
 //@   ensures @len_iff {C07} (len(result) == 0) == forall(i, 0, len(a), condOK(a[i]))
 //@   ensures @fresh own(result)
 //@   loop 1 binder k
@@ -263,6 +289,8 @@ package seccomp
 //@ macro nwcNonEmptyUpTo(g, k) = forall(i_, 0, k, len(g.NamesWithCondtions[i_].Conditions) >= 1)
 
 //@ func (g *SyscallGroup) toSyscallsWithConditions() ([]SyscallWithConditions, error)   properties C01 C03 C05 C07
+//@   deterministic C13
+//@   frame_props C13
 //@   requires g != nil && g.arch != nil
 //@   ensures @err_nil_result {C07} result1 != nil ==> len(result0) == 0
 //@   ensures @semantics {C01 C03} result1 == nil ==> anyEntry(result0, len(result0)) == groupMatches(g)
@@ -329,12 +357,16 @@ package seccomp
 //@ lemma entryValidInst(sc []SyscallWithConditions, k int, x SyscallWithConditions)
 //@   ensures 0 <= k && k < len(sc) && x == sc[k] && entriesOK(sc) ==> argsValid(x) && (entriesListsNonEmpty(sc) ==> semValid(x))
 //@ func (g *SyscallGroup) Assemble(defaultAction Action) ([]bpf.Instruction, error)   properties C01 C05 C07
+//@   deterministic C13
+//@   frame_props C13
 //@   requires g != nil && g.arch != nil
 //@   ensures @err {C07} result1 != nil ==> len(result0) == 0
 //@   ensures @sem {C01} result1 == nil && !(len(g.Names) == 0 && len(g.NamesWithCondtions) == 0) && groupListsNonEmpty(*g) && A0 == ev_nr(ev) ==> run(result0, 0, A0) == ite(groupMatchesF(*g.arch, *g), Ret(enc(g.Action)), Ret(enc(defaultAction)))
 //@   ensures @closed {C05} result1 == nil ==> closed(result0)
 
 //@ func (g *SyscallGroup) assemble(defaultAction Action, fallThrough bool) ([]bpf.Instruction, error)   properties C01 C03 C04 C05 C07
+//@   deterministic C13
+//@   frame_props C13
 //@   requires g != nil && g.arch != nil
 //@   let empty = len(g.Names) == 0 && len(g.NamesWithCondtions) == 0
 //@   ensures @empty empty ==> len(result0) == 0 && result1 == nil
@@ -361,6 +393,8 @@ package seccomp
 //@   ensures (namesKnownUpTo(g, len(g.Names)) && namesDistinctUpTo(g, len(g.Names)) && nwcOKUpTo(g, len(g.NamesWithCondtions))) == groupValidF(*g.arch, *g)
 
 //@ func (p *Policy) Validate() error   properties C07
+//@   deterministic C13
+//@   frame_props C13
 //@   requires p != nil
 //@   ensures @iff {C07} (result == nil) == (knownAction(p.DefaultAction) && len(p.Syscalls) > 0)
 
@@ -412,6 +446,8 @@ package seccomp
 //@   ensures insnStrictOK(R, j) ==> insnOK(R, j)
 
 //@ func (p *Policy) Assemble() ([]bpf.Instruction, error)   properties C01 C03 C04 C05 C07 C13
+//@   deterministic C13
+//@   frame_props C13
 //@   opaque groupValidN polDone polRel groupMatchesN closed strictClosed subBlock retsActUpTo run
 //@   requires p != nil
 //@   requires @api_groups forall(i, 0, len(p.Syscalls), p.Syscalls[i].arch == nil)
@@ -515,10 +551,15 @@ package seccomp
 // ---------------------------------------------------------------------------
 
 //@ func (a Action) String() string   properties C13 C14
+//@   deterministic C13
+//@   frame_props C13
 //@   ensures @known has(actionNames, a) ==> result == actionNames[a]
 //@   ensures @unknown !has(actionNames, a) ==> result == "unknown"
 
 //@ func (a *Action) Unpack(s string) error   properties C13 C14
+//@   deterministic C13
+//@   frame_props C13
+//@   determined
 //@   requires a != nil
 //@   modifies a
 //@   let ls = tolower(s)
@@ -535,6 +576,8 @@ package seccomp
 //@   ensures has(actionNames, a) ==> tolower(actionNames[a]) == actionNames[a]
 
 //@ func (o *Operation) Unpack(s string) error   properties C14
+//@   deterministic C13
+//@   frame_props C13
 //@   requires o != nil
 //@   modifies o
 //@   let ls = tolower(s)
@@ -627,3 +670,13 @@ package seccomp
 //@   ensures @strict_untouched ghost.strict == old(ghost.strict)
 //@   ensures @early_failure {C09} ghost.nseccomp == old(ghost.nseccomp) ==> ghost.nnp == old(ghost.nnp) && ghost.att == noThreads && result != nil
 //@   ensures @assemble_first {C09} ghost.nprctl != old(ghost.nprctl) ==> ghost.nseccomp != old(ghost.nseccomp) || !ghost.prctlOK
+
+//@ func (f FilterFlag) String() string   properties C13
+//@   deterministic C13
+//@   frame_props C13
+//@   loop 1 binder k
+//@     invariant @own own(list)
+//@ func (f FilterFlag) MarshalText() ([]byte, error)   properties C13
+//@   deterministic C13
+//@ func (a Action) MarshalText() ([]byte, error)   properties C13 C14
+//@   deterministic C13
